@@ -144,6 +144,37 @@ pub fn drive(t: &mut Tracer, tier: &str, seed: u64) {
             { let (k, mm) = (key.sk.clone(), m.clone()); call(t, &mut n, "sm2.sign_msg", "ladder", l, move || e(k.sign(None, &mm))); }
         }
     }
+    // --- degenerate values that the constructors accept: the master key ke = N - H1(ID || hid) (Q_B = [h1]P1 + Ppub-e is the point at infinity, so are
+    //     C1 and R); the point at infinity as a received R or as the signature point S.  Every call must terminate (ok or err). ---
+    {
+        let nn = gm_sm9::u256::u256_from_be_bytes(&hex::decode("b640000002a3a6f1d603ab4ff58ec74449f2934b18ea8beee56ee19cd69ecf25").unwrap());
+        for (idx, id) in [b"bob".to_vec(), b"degenerate".to_vec()].iter().enumerate() {
+            for hid in [3u8, 2] {
+                let h = gm_sm9::key::verif_hash1(id, hid);
+                let ke = gm_sm9::u256::u256_sub(&nn, &h).0;
+                let msk = gm_sm9::key::Sm9EncMasterKey { ke, ppube: gm_sm9::points::Point::g_mul(&ke) };
+                if hid == 3 {
+                    { let (m, i) = (msk, id.clone()); call(t, &mut n, "sm9.encrypt_q_infinity", "degenerate", idx, move || { let _ = m.encrypt(&i, b"message"); Ok::<(), String>(()) }); }
+                } else {
+                    { let (m, i) = (msk, id.clone()); call(t, &mut n, "sm9.kx1a_q_infinity", "degenerate", idx, move || { let _ = gm_sm9::key::exch_step_1a(&m, &i); Ok::<(), String>(()) }); }
+                }
+            }
+        }
+        let ke = gm_sm9::u256::u256_from_be_bytes(&[3u8; 32]);
+        let msk = gm_sm9::key::Sm9EncMasterKey { ke, ppube: gm_sm9::points::Point::g_mul(&ke) };
+        if let Some(kb) = msk.extract_exch_key(b"bob") {
+            let zero = gm_sm9::points::Point::zero();
+            let other_zero = gm_sm9::points::Point::g_mul(&[9, 0, 0, 0]).point_sub(&gm_sm9::points::Point::g_mul(&[9, 0, 0, 0]));
+            for (i, ra) in [zero, other_zero].iter().enumerate() {
+                let (m, k, r) = (msk, kb, *ra);
+                call(t, &mut n, "sm9.kx1b_r_infinity", "degenerate", i, move || { let _ = gm_sm9::key::exch_step_1b(&m, b"alice", b"bob", &k, &r, 16); Ok::<(), String>(()) });
+            }
+        }
+        let ks = gm_sm9::u256::u256_from_be_bytes(&[5u8; 32]);
+        let smk = gm_sm9::key::Sm9SignMasterKey { ks, ppubs: gm_sm9::points::TwistPoint::g_mul(&ks) };
+        { let m = smk; call(t, &mut n, "sm9.verify_s_infinity", "degenerate", 0, move || { let _ = m.verify_sign(b"signer", b"msg", &[7, 0, 0, 0], &gm_sm9::points::Point::zero()); Ok::<(), String>(()) }); }
+        // SM2: verification / decryption / key agreement never see an infinity through bytes; the public key object cannot hold it (constructor refuses)
+    }
     // --- truncations and single-byte corruptions of valid encodings ---
     let spki = pk.to_public_key_der().unwrap().as_bytes().to_vec();
     let p8 = key.sk.to_pkcs8_der().unwrap().as_bytes().to_vec();
